@@ -325,6 +325,17 @@ UNIT = dict(
     'hms.iter.erase.safe': dict(deciding=True, text='erase(iterator) dereferences only protected nodes'),
     'hms.iter.copy.independent': dict(deciding=True, text='copies / moved iterators are independently protected: advancing one leaves the other dereferenceable and well-formed'),
   },
+  replays={
+    'hms.find.iff_live': dict(src='replay_seq.cpp', fixed={'op': 'find'}), 'hms.find.position': dict(src='replay_seq.cpp', fixed={'op': 'find'}),
+    'hms.contains.iff_live': dict(src='replay_seq.cpp', fixed={'op': 'contains'}), 'hms.find_key.iff_live': dict(src='replay_seq.cpp', fixed={'op': 'find_key'}),
+    'hms.insert.iff_absent': dict(src='replay_seq.cpp', fixed={'op': 'emplace'}),
+    'hms.erase.iff_present': dict(src='replay_seq.cpp', fixed={'op': 'erase'}), 'hms.erase.second_fails': dict(src='replay_seq.cpp', fixed={'op': 'erase'}),
+    'hms.erase.unlinked_retired': dict(src='replay_seq.cpp', fixed={'op': 'erase'}),
+    'hms.iter.inc.next_live': dict(src='replay_seq.cpp', fixed={'op': 'inc'}), 'hms.iter.inc.no_skip': dict(src='replay_seq.cpp', fixed={'op': 'inc'}),
+    'hms.iter.erase.exact': dict(src='replay_seq.cpp', fixed={'op': 'erase_it'}), 'hms.iter.erase.next': dict(src='replay_seq.cpp', fixed={'op': 'erase_it'}),
+    # F11: the schedule needs the hook between the two reads of cur->next in operator++ (units/hms/hook_f11.diff); without the hook the program exits 2
+    'hms.iter.inc.progress': dict(src='native_f11.cpp', no_inputs=True),
+  },
   canaries=['find.true', 'find.false_end', 'find.false_greater', 'find.unlinked_two', 'find.restart_from_head', 'find.mid_start', 'find.start_unlinked', 'contains.true', 'contains.false', 'contains.helped', 'find_key.found', 'find_key.end', 'begin.empty', 'begin.nonempty', 'insert.true', 'insert.false', 'insert.at_head', 'insert.at_tail', 'insert.helped', 'emplace.true', 'emplace.false', 'erase.true', 'erase.false', 'erase.second_after_true', 'erase.helped', 'inc.fast', 'inc.fast_to_marked_successor', 'inc.fast_to_end', 'inc.cur_marked_linked', 'inc.cur_unlinked', 'inc.key_reinserted', 'inc.save_marked', 'inc.pred_changed', 'erase_it.direct', 'erase_it.refind', 'erase_it.cur_marked_linked', 'erase_it.cur_unlinked', 'erase_it.to_end', 'erase_it.to_marked_successor', 'copy.advanced', 'find_int.true', 'find_int.false_end', 'find_int.false_greater', 'insert_int.true', 'insert_int.false', 'erase_int.unlinked_by_helper', 'erase_int.unlinked_self', 'erase_int.false', 'erase_it_int.direct', 'erase_it_int.refind', 'erase_it_int.marked_by_other', 'inc_int.fast', 'inc_int.slow', 'inc_int.end'],
 )
 # development aid for mutation testing only: let mutants that change a rule count reach the obligations instead of stopping at 'extraction broke'
